@@ -276,6 +276,11 @@ impl QueryNode {
                     | '?'
                     | '\\'
                     | '/'
+                    // whitespace ends an unquoted term in the grammar
+                    | ' '
+                    | '\t'
+                    | '\r'
+                    | '\n'
             ) {
                 output.push('\\');
             }
